@@ -224,7 +224,7 @@ def gen_sheet(rng):
 # -- balanced garbage ------------------------------------------------------------------------------------
 ATOMS = ['x', 'foo', 'red', '1', '10px', '50%', '#f00', ':', ',', '!', '"s;}"', "'{'", '/*;*/', '.', '*', '=', '+',
          '>', '~', '|', '$', '%', '^', '&', 'url(u)', 'U+20', '-->', '<!--', 'x\\41 y', 'a\\z', '@kw', '1e3', '-',
-         'important', '#', '/']
+         'important', '#']      # no bare '/': glued to '*' it would open a comment (comments must be balanced too)
 # identifiers whose unescaped value contains a delimiter: region of known finding C04-escaped-delimiter-ident
 ESCAPED_DELIMS = ['\\3b x', 'a\\7d', '\\7b ', '\\28 ', 'x\\5d', '\\3a', '#\\7b', '1\\7d ']
 
@@ -264,17 +264,40 @@ class Garbage:
 BAD_SELECTORS = ['$x', 'a!b', '..x', 'a:::b', 'a[=]', '#', '1a', 'a,,b', '(x)', 'a b !', '%', 'a >', '> > a',
                  'a[', 'a]', ':', 'a:not(', 'a{', 'q|a', '[x](y)', '"s"', 'a;b']
 BAD_SELECTORS_BALANCED = [s for s in BAD_SELECTORS if s not in ('a[', 'a]', 'a:not(', 'a{', 'a;b')]
-BAD_DECLS = ['color red', 'color:', ': red', '(x): 1', '[x]:1', '{a:b}', 'x(y): 1', '*zoom: 1', 'color: red ! x y',
+BAD_DECLS = ['foo {z} color: blue', 'foo [z] top: 1px !important', 'x y {a:b} color: blue !important', 'top (z) left: 0',
+             'color red', 'color:', ': red', '(x): 1', '[x]:1', '{a:b}', 'x(y): 1', '*zoom: 1', 'color: red ! x y',
              '!important', 'color: red green (1 ; 2)', '= 1', 'color; red'[:5], '1px: 2', '#a: b', '"s": 1',
              'color: {x}', 'color: [1;2]', 'a b: c', 'color:: red', 'color: red !important !important',
              '(x) ! color: red', '*zoom ! color: red', ', ,', 'color @x: red', 'color: red !important @x',
              'url(x): 1', 'color:red !', '-: 1', 'f(', ]
 BAD_DECLS = [d for d in BAD_DECLS if d != 'f(']
 # no colon / no value / no name / not starting with an identifier / two names: never a declaration
-INVALID_DECLS = {'color red', 'color:', ': red', '(x): 1', '[x]:1', '{a:b}', '*zoom: 1', '!important', '= 1',
+INVALID_DECLS = {'foo {z} color: blue', 'foo [z] top: 1px !important', 'x y {a:b} color: blue !important',
+                 'top (z) left: 0', 'color red', 'color:', ': red', '(x): 1', '[x]:1', '{a:b}', '*zoom: 1', '!important', '= 1',
                  '1px: 2', '#a: b', '"s": 1', 'a b: c', '(x) ! color: red', '*zoom ! color: red', ', ,', 'color'}
 INVALID_SELECTORS = {'$x', 'a!b', '..x', '#', '1a', '(x)', '%', ':', '"s"', 'a b !'}
-MISPLACED = ['@import "late.css";', '@charset "latin-1";', '@namespace q "http://late/";', '@IMPORT url(l.css);']
+MISPLACED = ['@import "late.css";', '@charset "latin-1";', '@namespace q "http://late/";', '@IMPORT url(l.css);',
+             # honoured by mistake these would change how later selectors resolve: a default namespace, and a
+             # prefix the grammar sheets declare (p) bound to another URI
+             '@namespace "http://late-default/";', '@namespace p "http://late-p/";', '@NAMESPACE p url(http://late-p2/);',
+             '@namespace url("http://late-default2/");']
+
+
+def ident_garbage(rng):
+    """a malformed declaration that STARTS WITH AN IDENTIFIER: the identifier is not followed by ':' (so by CSS 2.1
+    4.1.8 it is no declaration, by construction), then nested {} [] () blocks at level 0, and declaration-looking
+    text before its ';' — everything up to that ';' must be dropped as a whole, nothing of it may leak in"""
+    name = rng.choice(['foo', 'color', 'x', 'top', 'w\\idth', 'COLOR'])
+    second = rng.choice(['{' + balanced(rng, 1) + '}', '[' + balanced(rng, 1) + ']', '(' + balanced(rng, 1) + ')',
+                         'f(' + balanced(rng, 1) + ')', 'bar', '1px', '"s"', '{z}', '{a:b;c:d}', '*', '='])
+    parts = [name, second]
+    for _ in range(rng.choice([0, 0, 1, 2])):
+        parts.append(rng.choice(['{' + balanced(rng, 1) + '}', '[' + balanced(rng, 1) + ']', '(' + balanced(rng, 1) + ')',
+                                 rng.choice(ATOMS)]))
+    for _ in range(rng.choice([0, 1, 1, 2])):
+        n, v = rng.choice(DECLS)
+        parts.append(n + rng.choice(['', ' ']) + ':' + rng.choice(['', ' ']) + v + rng.choice(PRIOS))
+    return Garbage(' ' + ' '.join(parts) + rng.choice(['', ' ']) + ';', 'decl:ident-blocks', invalid=True)
 
 
 def gen_garbage(rng, where):
@@ -286,6 +309,8 @@ def gen_garbage(rng, where):
             d = rng.choice(BAD_DECLS)
             return Garbage(rng.choice(['', ' ']) + d + rng.choice(['', ' ']) + ';', 'decl:list',
                            invalid=d in INVALID_DECLS)
+        if r < 0.68:
+            return ident_garbage(rng)
         if r < 0.85:
             first = rng.choice(['(', '[', '{', 'f(', ':', '!', '1', '#x', '"s"', '*', '$', 'x', 'x y', ','])
             close = {'(': ')', '[': ']', '{': '}', 'f(': ')'}.get(first, '')
@@ -301,7 +326,7 @@ def gen_garbage(rng, where):
         body = ';'.join(n + ':' + v for n, v in [rng.choice(DECLS) for _ in range(rng.choice([0, 1, 2]))])
         return Garbage(' ' + sel + rng.choice(['', ' ']) + '{' + body + '}' + rng.choice(['', ' ']), 'stmt:bad-selector',
                        invalid=sel in INVALID_SELECTORS)
-    if r < 0.65:
+    if r < 0.58:
         return Garbage(' ' + rng.choice(UNKNOWN_AT) + ' ', 'stmt:unknown-at')
     if r < 0.8 and where.endswith('+body') and base == 'stmt':
         return Garbage(' ' + rng.choice(MISPLACED) + ' ', 'stmt:misplaced')
